@@ -94,6 +94,8 @@ class _DatetimeShim(object):
 # --------------------------------------------------------------------------- memfs
 MEMFS = {}
 MEMFS_ENC = {}
+MEMFS_MTIME = {}
+_MEMFS_CLOCK = [1700000000 * 10 ** 9]
 
 
 class _MemOut(io.StringIO):
@@ -113,6 +115,8 @@ class _MemOut(io.StringIO):
                 raise
             MEMFS[self._path] = text
             MEMFS_ENC[self._path] = self._encoding
+            _MEMFS_CLOCK[0] += 1000003  # the simulated file system's clock: every write is later than the one before
+            MEMFS_MTIME[self._path] = _MEMFS_CLOCK[0]
 
 
 def memfs_open(path, mode="r", encoding=None, **kw):
@@ -127,6 +131,68 @@ def memfs_open(path, mode="r", encoding=None, **kw):
             text = text.encode(enc_w).decode(enc_r)
         return io.StringIO(text)
     return open(path, mode, encoding=encoding, **kw)
+
+
+def _is_mem(path):
+    return isinstance(path, str) and path.startswith("mem:")
+
+
+class _MemPath(object):
+    """os.path for a module of the library under test: answers for files of the simulated file system, else the real os.path."""
+
+    def __getattr__(self, name):
+        import os
+        return getattr(os.path, name)
+
+    def abspath(self, path):
+        import os
+        return path if _is_mem(path) else os.path.abspath(path)
+
+    realpath = normpath = abspath
+
+    def exists(self, path):
+        import os
+        return path in MEMFS if _is_mem(path) else os.path.exists(path)
+
+    isfile = exists
+
+    def getsize(self, path):
+        return _OS.stat(path).st_size
+
+    def getmtime(self, path):
+        return _OS.stat(path).st_mtime
+
+
+class _MemOs(object):
+    """The os module as a library module sees it (only installed where a library module imports os at all)."""
+
+    path = _MemPath()
+
+    def __getattr__(self, name):
+        import os
+        return getattr(os, name)
+
+    def stat(self, path, *a, **k):
+        import os
+        if not _is_mem(path):
+            return os.stat(path, *a, **k)
+        if path not in MEMFS:
+            raise FileNotFoundError(2, "No such file or directory", path)
+        size = len(MEMFS[path].encode(MEMFS_ENC.get(path, "utf-8")))
+        ns = MEMFS_MTIME.get(path, _MEMFS_CLOCK[0])
+        return os.stat_result((0o100644, 1, 1, 1, 0, 0, size, ns // 10 ** 9, ns // 10 ** 9, ns // 10 ** 9,
+                               ns / 1e9, ns / 1e9, ns / 1e9, ns, ns, ns))
+
+    def remove(self, path, *a, **k):
+        import os
+        if not _is_mem(path):
+            return os.remove(path, *a, **k)
+        if path not in MEMFS:
+            raise FileNotFoundError(2, "No such file or directory", path)
+        del MEMFS[path]
+
+
+_OS = _MemOs()
 
 
 # --------------------------------------------------------------------------- classes
@@ -291,6 +357,10 @@ def install():
             m.uuid = UUID
     _ORIG["datetime"] = bp.datetime
     bp.datetime = _DatetimeShim
+    import os as _os
+    for m in M.modules:
+        if getattr(m, "os", None) is _os:
+            m.os = _OS
 
 
 def uninstall():
@@ -312,9 +382,12 @@ def uninstall():
     bp.datetime = _ORIG["datetime"]
     import uuid as _uuid
 
+    import os as _os
     for m in M.modules:
         if hasattr(m, "uuid"):
             m.uuid = _uuid
+        if getattr(m, "os", None) is _OS:
+            m.os = _os
     _ORIG.clear()
 
 
@@ -326,6 +399,8 @@ def reset_run_state(seed=0):
     del HELPER_RANKS[:]
     UUID.reset()
     MEMFS.clear()
+    MEMFS_MTIME.clear()
+    _MEMFS_CLOCK[0] = 1700000000 * 10 ** 9
     numpy.random.seed(seed & 0xFFFFFFFF)
     reset_global_defaults()
 
